@@ -488,9 +488,64 @@ def translate_status(repo, out):
     out.append("")
 
 
+# ------------------------------------------------------------------ util.py: posix_environment (the lines of env())
+def translate_env(repo, out):
+    tree = parse(repo, "tbot/machine/linux/util.py")
+    f = find_func(tree, "posix_environment")
+    tops = [n for n in f.body if isinstance(n, ast.If)]
+    need(len(tops) == 1 and ast.unparse(tops[0].test) == "value is not None", "posix_environment is not `if value is not None: ... else: ...`")
+    setb, getb = tops[0].body, tops[0].orelse
+
+    def fparts(node, what):
+        need(isinstance(node, ast.Call) and ast.unparse(node.func) == "linux.Raw" and len(node.args) == 1 and isinstance(node.args[0], ast.JoinedStr),
+             f"{what}: expected linux.Raw(f'...')")
+        return node.args[0].values
+
+    # set: mach.exec0("export", linux.Raw(f"{mach.escape(var)}={mach.escape(value)}"))
+    calls = [n for b in setb for n in ast.walk(b) if isinstance(n, ast.Call) and ast.unparse(n.func) == "mach.exec0"]
+    need(len(calls) == 1 and len(calls[0].args) == 2 and not calls[0].keywords, "the set branch does not call mach.exec0 with two arguments once")
+    cmd = const_str(calls[0].args[0], "the command of the set branch")
+    parts = fparts(calls[0].args[1], "the assignment word")
+    need(len(parts) == 3 and isinstance(parts[0], ast.FormattedValue) and ast.unparse(parts[0].value) == "mach.escape(var)"
+         and isinstance(parts[1], ast.Constant) and isinstance(parts[1].value, str)
+         and isinstance(parts[2], ast.FormattedValue) and ast.unparse(parts[2].value) == "mach.escape(value)"
+         and parts[0].conversion == -1 and parts[2].conversion == -1 and parts[0].format_spec is None and parts[2].format_spec is None,
+         "the assignment word is not f'{mach.escape(var)}<sep>{mach.escape(value)}'")
+    sep = parts[1].value
+    # get: if var not in [<names>]: var = mach.escape(var);  return mach.exec0("printf", <fmt>, linux.Raw(f'<pre>{var}<post>'))[:-k]
+    need(len(getb) == 2 and isinstance(getb[0], ast.If) and isinstance(getb[1], ast.Return), "the get branch is not `if ...: ...` followed by `return ...`")
+    t = getb[0].test
+    need(isinstance(t, ast.Compare) and len(t.ops) == 1 and isinstance(t.ops[0], ast.NotIn) and ast.unparse(t.left) == "var"
+         and isinstance(t.comparators[0], ast.List) and not getb[0].orelse and len(getb[0].body) == 1
+         and ast.unparse(getb[0].body[0]) == "var = mach.escape(var)", "the get branch does not escape var unless it is one of a list of names")
+    special = [const_str(e, "a special variable name") for e in t.comparators[0].elts]
+    r = getb[1].value
+    need(isinstance(r, ast.Subscript) and isinstance(r.slice, ast.Slice) and r.slice.lower is None and r.slice.step is None
+         and isinstance(r.slice.upper, ast.UnaryOp) and isinstance(r.slice.upper.op, ast.USub) and isinstance(r.slice.upper.operand, ast.Constant)
+         and isinstance(r.slice.upper.operand.value, int), "the get branch does not return <call>[:-k]")
+    drop = r.slice.upper.operand.value
+    call = r.value
+    need(isinstance(call, ast.Call) and ast.unparse(call.func) == "mach.exec0" and len(call.args) >= 2 and not call.keywords,
+         "the get branch does not return mach.exec0(...)[:-k]")
+    words = [const_str(a, "a word of the read-back command") for a in call.args[:-1]]
+    parts = fparts(call.args[-1], "the quoted expansion")
+    need(len(parts) == 3 and isinstance(parts[0], ast.Constant) and isinstance(parts[2], ast.Constant)
+         and isinstance(parts[1], ast.FormattedValue) and ast.unparse(parts[1].value) == "var" and parts[1].conversion == -1 and parts[1].format_spec is None,
+         "the quoted expansion is not f'<pre>{var}<post>'")
+    out.append("(* from tbot/machine/linux/util.py: posix_environment *)")
+    out.append(f"Definition gen_export_line (var value : list N) : list N :=")
+    out.append(f"  sh_quote {codepoints(cmd)} ++ [32%N] ++ sh_quote var ++ {codepoints(sep)} ++ sh_quote value.")
+    out.append("Definition gen_get_var (var : list N) : list N :=")
+    out.append("  if " + " || ".join(f"list_N_eqb var {codepoints(x)}" for x in special) + " then var else sh_quote var.")
+    out.append("Definition gen_get_line (var : list N) : list N :=")
+    out.append("  " + " ++ [32%N] ++ ".join(f"sh_quote {codepoints(w)}" for w in words) + f" ++ [32%N] ++ {codepoints(parts[0].value)} ++ gen_get_var var ++ {codepoints(parts[2].value)}.")
+    out.append(f"Definition GEN_GET_DROP : nat := {drop}.")
+    out.append("")
+
+
 def translate(repo):
     out = ["(* GENERATED by tools/translate.py from the current source of the repository -- do not edit *)",
-           "From TV Require Import Base Regex Channel LogEvent.", ""]
+           "From TV Require Import Base Regex Channel LogEvent Sh.", ""]
     translate_hush(repo, out)
     translate_shell(repo, "tbot/machine/linux/bash.py", "Bash", "BASH", out)
     translate_shell(repo, "tbot/machine/linux/ash.py", "Ash", "ASH", out)
@@ -500,6 +555,7 @@ def translate(repo):
     translate_log(repo, out)
     translate_path(repo, out)
     translate_status(repo, out)
+    translate_env(repo, out)
     return "\n".join(out) + "\n"
 
 
